@@ -16,7 +16,7 @@ PROP = {
             "1-3 attribute mutation of it, boundary values of the field widths, IPv4/IPv6 forms, static and malformed "
             "paths for the dispatch); Loc-RIB groups of 3-5 candidates in several insertion orders (best path). "
             "Non-trivial: the pair is still tied after the eBGP step (steps f, g decide) or mixes protocols; a group is "
-            "non-trivial when it has equal-cost candidates or mixes CLUSTER_LIST presence / protocols; distinct = distinct inputs",
+            "non-trivial when it has equal-cost candidates or mixes CLUSTER_LIST presence / protocols; distinct = distinct inputs. Every generator also varies what the decision process must NOT read: AS_PATH contents at equal length (first ASN / leading AS_SET / nil, empty, segment-less AS_PATH), communities, large communities, unknown attributes, ATOMIC_AGGREGATE, AGGREGATOR, path id, OTC, BMPPostPolicy, LTime, HiddenReason, RedistributedFrom; C03 additionally sweeps every ordered pair of a 76-path domain MED x AS_PATH variant x eBGP x identifier x peer address",
     "trusted_base": [
         "extraction (ExtrOcamlBasic only) + ocaml/common/conv.ml + ocaml/c02/c02_run.ml",
         "Go harness harness/pathsel + harness/cmd/c03 (path construction from descriptions, observation of "
